@@ -286,6 +286,10 @@ impl IPv6DHTIdentityManager {
             self.identity_cache.get(&identity.ipv6_addr.to_string())
             && cached_at.elapsed().unwrap_or(Duration::MAX) < self.config.identity_refresh_interval
             && cached_identity.node_id == identity.node_id
+            && cached_identity.public_key == identity.public_key
+            && cached_identity.signature == identity.signature
+            && cached_identity.salt == identity.salt
+            && cached_identity.timestamp_secs == identity.timestamp_secs
         {
             return Ok(IPv6VerificationResult {
                 is_valid: true,
